@@ -1,6 +1,7 @@
 import AmcVerif.Gen.SmallSetGen
 import AmcVerif.Model.Sets
 import AmcVerif.Lemmas.SmallSetInv
+import AmcVerif.Bridge.FlatSetBridge
 /-! Tie between `include/amc/smallset.hpp` and the hand-written SmallSet model (`Model/Sets.lean`, `SSet`).
 
 `Gen/SmallSetGen.lean` is regenerated from the header by `translator/smallset2lean.py` on every run (from two instantiations,
@@ -524,5 +525,549 @@ theorem merge_eq (hswo : SWO lt) (N : Nat) (s o : SSet α) (h : s.Inv lt N) (ho 
     refine ⟨0 + c, ?_⟩
     simp only [Bool.not_true, Bool.false_eq_true, if_false, hc, hoset]
     rfl
+
+/-! ## Task T8: the remaining members
+
+### range insertion (`insert(first, last)`, `insert(initializer_list)`, `operator=(initializer_list)`, the range constructors)
+
+The source inserts one by one through `insert_small` while the set is inline, then hands the rest of the range to the backing
+set in one call (`_set.insert(first, last)`, modelled as `insertAll`); the model's `insertRange` inserts one by one throughout.
+Hypothesis: `s.set ≠ [] → s.vec = []` as for `insert`. -/
+
+/-- the model's `insert` keeps "`_vec` is empty whenever `_set` is not" -/
+theorem insert_excl (lt : α → α → Bool) (N : Nat) (s : SSet α) (v : α) (hx : s.set ≠ [] → s.vec = []) :
+    (s.insert lt N v).1.set ≠ [] → (s.insert lt N v).1.vec = [] := by
+  unfold SSet.insert
+  cases hs : s.isSmall
+  · simp
+  · have hset : s.set = [] := by simpa [SSet.isSmall] using hs
+    simp only [if_true]
+    generalize findSmall lt s.vec v 0 = p
+    obtain ⟨r, c⟩ := p
+    cases r with
+    | some i => simpa using hx
+    | none =>
+      by_cases hf : s.vec.length = N
+      · simp [hf]
+      · simp [hf]
+
+/-- in the large state inserting one by one is the bulk insertion into the backing set -/
+theorem insertRange_large (lt : α → α → Bool) (N : Nat) (ws : List α) :
+    ∀ (st : List α), st ≠ [] → (⟨[], st⟩ : SSet α).insertRange lt N ws = ⟨[], insertAll lt st ws⟩ := by
+  induction ws with
+  | nil => intro st _; rfl
+  | cons w t ih =>
+    intro st hne
+    have hs : (⟨[], st⟩ : SSet α).isSmall = false := by
+      cases st with
+      | nil => exact absurd rfl hne
+      | cons a u => rfl
+    have hne' : (insertVal lt st w).1 ≠ [] := by
+      intro h
+      have := insertVal_nonempty lt st w
+      rw [h] at this; cases this
+    simp only [SSet.insertRange, List.foldl_cons, insertAll] at ih ⊢
+    have : ((⟨[], st⟩ : SSet α).insert lt N w).1 = ⟨[], (insertVal lt st w).1⟩ := by
+      unfold SSet.insert; simp [hs]
+    rw [this]
+    exact ih _ hne'
+
+theorem range_step_eq (lt : α → α → Bool) (N : Nat) (s : SSet α) (pre : List α) (x : α) (rest : List α) :
+    Gen.SmallSet.insert_range_step lt N s (pre ++ x :: rest) pre.length
+      = if s.isSmall then some (true, ((s.insert lt N x).1, pre.length + 1), scanCalls lt s x)
+        else some (false, (s, pre.length), 0) := by
+  unfold Gen.SmallSet.insert_range_step
+  rw [isSmall_eq]
+  cases hs : s.isSmall
+  · simp
+  · have hne : ¬ (pre.length = (pre ++ x :: rest).length) := by simp
+    have hx : (pre ++ x :: rest)[pre.length]? = some x := by simp
+    simp only [if_true, hne, if_false, hx, insert_small_eq lt N s x hs, insertR]
+    simp
+
+theorem range_step_end (lt : α → α → Bool) (N : Nat) (s : SSet α) (vs : List α) :
+    Gen.SmallSet.insert_range_step lt N s vs vs.length = some (false, (s, vs.length), 0) := by
+  unfold Gen.SmallSet.insert_range_step
+  rw [isSmall_eq]
+  cases s.isSmall <;> simp
+
+/-- what `insert(first, last)` does after its loop -/
+def rangePost (lt : α → α → Bool) (N : Nat) (vs : List α) (r0 : (SSet α × Nat) × Nat) : Option (SSet α × Unit × Nat) :=
+  match Gen.SmallSet.isSmall lt N r0.1.1 with
+  | none => none
+  | some r1 =>
+    if r1.1 then some (r0.1.1, (), r0.2 + r1.2)
+    else if r0.1.2 = vs.length then some (r0.1.1, (), r0.2 + r1.2)
+    else some (⟨r0.1.1.vec, Sets.insertAll lt r0.1.1.set (vs.drop r0.1.2)⟩, (), r0.2 + r1.2)
+
+theorem range_loop_spec (lt : α → α → Bool) (N : Nat) (rest : List α) :
+    ∀ (pre : List α) (s : SSet α) (fuel : Nat), rest.length < fuel → (s.set ≠ [] → s.vec = []) →
+      ∃ r0, Gen.SmallSet.whileFuel (fun st => Gen.SmallSet.insert_range_step lt N st.1 (pre ++ rest) st.2) fuel (s, pre.length)
+          = some r0
+        ∧ ∃ c, rangePost lt N (pre ++ rest) r0 = some (s.insertRange lt N rest, (), c) := by
+  induction rest with
+  | nil =>
+    intro pre s fuel hf hx
+    cases fuel with
+    | zero => simp at hf
+    | succ n =>
+      rw [Gen.SmallSet.whileFuel]
+      have := range_step_end lt N s (pre ++ [])
+      simp only [List.append_nil] at this ⊢
+      simp only [this, Bool.false_eq_true, if_false]
+      refine ⟨_, rfl, ?_⟩
+      unfold rangePost
+      rw [isSmall_eq]
+      cases s.isSmall <;> simp [SSet.insertRange]
+  | cons x t ih =>
+    intro pre s fuel hf hx
+    cases fuel with
+    | zero => simp at hf
+    | succ n =>
+      rw [Gen.SmallSet.whileFuel]
+      simp only [range_step_eq]
+      cases hs : s.isSmall
+      · -- large: the loop stops at once, the whole rest goes to the backing set
+        simp only [Bool.false_eq_true, if_false]
+        refine ⟨_, rfl, ?_⟩
+        have hne : s.set ≠ [] := by
+          intro h; simp [SSet.isSmall, h] at hs
+        have hv := hx hne
+        unfold rangePost
+        rw [isSmall_eq]
+        have hlen : ¬ (pre.length = (pre ++ x :: t).length) := by simp
+        simp only [hs, Bool.false_eq_true, if_false, hlen, List.drop_left, hv]
+        have := insertRange_large lt N (x :: t) s.set hne
+        have hs' : s = ⟨[], s.set⟩ := by cases s; simp_all
+        rw [hs'] at this ⊢
+        simp only at this ⊢
+        rw [this]
+        exact ⟨_, rfl⟩
+      · -- inline: one element goes through insert_small
+        simp only [if_true]
+        have hx' := insert_excl lt N s x hx
+        obtain ⟨r0, h0, c, hc⟩ := ih (pre ++ [x]) (s.insert lt N x).1 n
+          (by simp only [List.length_cons] at hf; omega) hx'
+        simp only [List.append_assoc, List.singleton_append, List.length_append, List.length_singleton] at h0 hc
+        rw [h0]
+        refine ⟨_, rfl, ?_⟩
+        have : s.insertRange lt N (x :: t) = (s.insert lt N x).1.insertRange lt N t := rfl
+        rw [this]
+        unfold rangePost at hc ⊢
+        rw [isSmall_eq] at hc ⊢
+        simp only at hc ⊢
+        cases hsm : r0.1.1.isSmall
+        · simp only [hsm, Bool.false_eq_true, if_false] at hc ⊢
+          by_cases hl : r0.1.2 = (pre ++ x :: t).length
+          · simp only [hl, if_true] at hc ⊢
+            obtain ⟨h1, _⟩ := Prod.mk.inj (Option.some.inj hc)
+            exact ⟨_, by rw [h1]⟩
+          · simp only [hl, if_false] at hc ⊢
+            obtain ⟨h1, _⟩ := Prod.mk.inj (Option.some.inj hc)
+            exact ⟨_, by rw [h1]⟩
+        · simp only [hsm, if_true] at hc ⊢
+          obtain ⟨h1, _⟩ := Prod.mk.inj (Option.some.inj hc)
+          exact ⟨_, by rw [h1]⟩
+
+/-- `insert(first, last)` (smallset.hpp:295) -/
+theorem insert_range_eq (lt : α → α → Bool) (N : Nat) (s : SSet α) (hx : s.set ≠ [] → s.vec = []) (vs : List α) :
+    ∃ c, Gen.SmallSet.insert_range lt N s vs = some (s.insertRange lt N vs, (), c) := by
+  obtain ⟨r0, h0, c, hc⟩ := range_loop_spec lt N vs [] s (vs.length + 1) (by omega) hx
+  simp only [List.nil_append, List.length_nil] at h0 hc
+  refine ⟨c, ?_⟩
+  unfold Gen.SmallSet.insert_range
+  rw [h0]
+  exact hc
+
+/-- `insert(std::initializer_list)` (smallset.hpp:317) -/
+theorem insert_ilist_eq (lt : α → α → Bool) (N : Nat) (s : SSet α) (hx : s.set ≠ [] → s.vec = []) (vs : List α) :
+    ∃ c, Gen.SmallSet.insert_ilist lt N s vs = some (s.insertRange lt N vs, (), c) := by
+  obtain ⟨c, hc⟩ := insert_range_eq lt N s hx vs
+  exact ⟨c, by simp [Gen.SmallSet.insert_ilist, hc]⟩
+
+/-- `operator=(std::initializer_list)` (smallset.hpp:251): `clear()`, then the range insertion -/
+theorem assign_ilist_eq (lt : α → α → Bool) (N : Nat) (s : SSet α) (hx : s.set ≠ [] → s.vec = []) (vs : List α) :
+    ∃ c, Gen.SmallSet.assign_ilist lt N s vs = some ((⟨[], []⟩ : SSet α).insertRange lt N vs, (), c) := by
+  obtain ⟨c, hc⟩ := insert_range_eq lt N (⟨[], []⟩ : SSet α) (fun h => absurd rfl h) vs
+  exact ⟨0 + c, by simp [Gen.SmallSet.assign_ilist, clear_eq lt N s hx, hc]⟩
+
+/-- the range constructor (smallset.hpp:234) and the initializer-list constructor (smallset.hpp:246) -/
+theorem ctor_range_eq (lt : α → α → Bool) (N : Nat) (vs : List α) :
+    ∃ c, Gen.SmallSet.ctor_range lt N vs = some ((⟨[], []⟩ : SSet α).insertRange lt N vs, (), c) := by
+  obtain ⟨c, hc⟩ := insert_range_eq lt N (⟨[], []⟩ : SSet α) (fun h => absurd rfl h) vs
+  exact ⟨c, by simp [Gen.SmallSet.ctor_range, hc]⟩
+
+theorem ctor_ilist_eq (lt : α → α → Bool) (N : Nat) (vs : List α) :
+    ∃ c, Gen.SmallSet.ctor_ilist lt N vs = some ((⟨[], []⟩ : SSet α).insertRange lt N vs, (), c) := by
+  obtain ⟨c, hc⟩ := ctor_range_eq lt N vs
+  exact ⟨c, by simp [Gen.SmallSet.ctor_ilist, hc]⟩
+
+/-! ### `erase(first, last)`, both overloads; `swap`
+
+The model has no range erase: direct specification.  Hypotheses: both iterators are iterators of the container in use and
+`a ≤ b ≤ size` (a valid range of this set). -/
+
+/-- the set without the elements at the positions `[a, b)` of its iteration sequence -/
+def eraseRangeS (s : SSet α) (a b : Nat) : SSet α :=
+  if s.isSmall then ⟨s.vec.take a ++ s.vec.drop b, []⟩ else ⟨[], s.set.take a ++ s.set.drop b⟩
+
+/-- … with the iterator returned by the source: the position of the former `last`, or `end()` of the resulting set when nothing
+    follows (also when a large set becomes empty and so switches back to the inline state) -/
+def eraseRangeR (s : SSet α) (a b : Nat) : SSet α × (Bool × Nat) × Nat :=
+  (eraseRangeS s a b,
+   (if a < (eraseRangeS s a b).elems.length then ((eraseRangeS s a b).isSmall, a) else endIt (eraseRangeS s a b)), 0)
+
+theorem erase_range_ptr_eq (lt : α → α → Bool) (N : Nat) (s : SSet α) (hx : s.set ≠ [] → s.vec = []) (first last : Bool × Nat)
+    (hf : first.1 = s.isSmall) (hl : last.1 = s.isSmall) (hab : first.2 ≤ last.2) (hb : last.2 ≤ s.elems.length) :
+    Gen.SmallSet.erase_range_ptr lt N s first last = some (eraseRangeR s first.2 last.2) := by
+  obtain ⟨fb, a⟩ := first
+  obtain ⟨lb, b⟩ := last
+  simp only at hf hl hab hb
+  subst hf hl
+  unfold Gen.SmallSet.erase_range_ptr eraseRangeR eraseRangeS endIt
+  simp only [isSmall_eq]
+  unfold SSet.elems at hb ⊢
+  cases hs : s.isSmall
+  · have hne : s.set ≠ [] := by
+      intro h; simp [SSet.isSmall, h] at hs
+    have hv := hx hne
+    simp only [hs, Bool.false_eq_true, if_false] at hb
+    simp only [Bool.false_eq_true, if_false, hab, hb, if_true, hv, SSet.isSmall]
+    cases he : s.set.take a ++ s.set.drop b with
+    | nil => simp
+    | cons y t =>
+      have hlen : (y :: t).length = a + (s.set.length - b) := by
+        rw [← he]; simp [List.length_append, List.length_take, List.length_drop]; omega
+      simp only [List.isEmpty_cons, Bool.false_eq_true, if_false]
+      by_cases hlt : a < (y :: t).length
+      · rw [if_pos hlt]
+      · rw [if_neg hlt]
+        have : a = (y :: t).length := by omega
+        rw [← this]
+  · have hset : s.set = [] := by simpa [SSet.isSmall] using hs
+    simp only [hs, if_true] at hb
+    simp only [if_true, hab, hb, hset, SSet.isSmall, List.isEmpty_nil]
+    have hlen : (s.vec.take a ++ s.vec.drop b).length = a + (s.vec.length - b) := by
+      simp [List.length_append, List.length_take, List.length_drop]; omega
+    by_cases hlt : a < (s.vec.take a ++ s.vec.drop b).length
+    · rw [if_pos hlt]
+    · rw [if_neg hlt]
+      have : a = (s.vec.take a ++ s.vec.drop b).length := by omega
+      rw [← this]
+
+theorem erase_range_var_eq (lt : α → α → Bool) (N : Nat) (s : SSet α) (hx : s.set ≠ [] → s.vec = []) (first last : Bool × Nat)
+    (hf : first.1 = s.isSmall) (hl : last.1 = s.isSmall) (hab : first.2 ≤ last.2) (hb : last.2 ≤ s.elems.length) :
+    Gen.SmallSet.erase_range_var lt N s first last = some (eraseRangeR s first.2 last.2) := by
+  obtain ⟨fb, a⟩ := first
+  obtain ⟨lb, b⟩ := last
+  simp only at hf hl hab hb
+  subst hf hl
+  unfold Gen.SmallSet.erase_range_var eraseRangeR eraseRangeS endIt
+  simp only [isSmall_eq]
+  unfold SSet.elems at hb ⊢
+  cases hs : s.isSmall
+  · have hne : s.set ≠ [] := by
+      intro h; simp [SSet.isSmall, h] at hs
+    have hv := hx hne
+    simp only [hs, Bool.false_eq_true, if_false] at hb
+    simp only [Bool.false_eq_true, if_false, hab, hb, if_true, hv, SSet.isSmall]
+    cases he : s.set.take a ++ s.set.drop b with
+    | nil => simp
+    | cons y t =>
+      have hlen : (y :: t).length = a + (s.set.length - b) := by
+        rw [← he]; simp [List.length_append, List.length_take, List.length_drop]; omega
+      simp only [List.isEmpty_cons, Bool.false_eq_true, if_false]
+      by_cases hlt : a < (y :: t).length
+      · rw [if_pos hlt]
+      · rw [if_neg hlt]
+        have : a = (y :: t).length := by omega
+        rw [← this]
+  · have hset : s.set = [] := by simpa [SSet.isSmall] using hs
+    simp only [hs, if_true] at hb
+    simp only [if_true, hab, hb, hset, SSet.isSmall, List.isEmpty_nil]
+    have hlen : (s.vec.take a ++ s.vec.drop b).length = a + (s.vec.length - b) := by
+      simp [List.length_append, List.length_take, List.length_drop]; omega
+    by_cases hlt : a < (s.vec.take a ++ s.vec.drop b).length
+    · rw [if_pos hlt]
+    · rw [if_neg hlt]
+      have : a = (s.vec.take a ++ s.vec.drop b).length := by omega
+      rw [← this]
+
+theorem swap_eq (lt : α → α → Bool) (N : Nat) (s o : SSet α) :
+    Gen.SmallSet.swap lt N s o = some (o, s, (), 0) := by
+  cases s; cases o; rfl
+
+/-! ### `insert(hint, value)`: in the inline state the hint is ignored; in the large state it must be an iterator of the backing
+set, whose hinted insertion has the result of plain insertion -/
+
+theorem insert_at_ptr_eq (lt : α → α → Bool) (N : Nat) (s : SSet α) (hx : s.set ≠ [] → s.vec = []) (hint : Bool × Nat)
+    (hh : hint.1 = s.isSmall) (v : α) :
+    Gen.SmallSet.insert_at_ptr lt N s hint v = some ((insertR lt N s v).1, (insertR lt N s v).2.1.1, (insertR lt N s v).2.2) := by
+  unfold Gen.SmallSet.insert_at_ptr
+  rw [isSmall_eq]
+  cases hs : s.isSmall
+  · have hne : s.set ≠ [] := by
+      intro h; simp [SSet.isSmall, h] at hs
+    rw [hs] at hh
+    simp [hh, insertR, SSet.insert, scanCalls, hs, hx hne]
+  · simp [insert_small_eq lt N s v hs]
+
+theorem insert_at_var_eq (lt : α → α → Bool) (N : Nat) (s : SSet α) (hx : s.set ≠ [] → s.vec = []) (hint : Bool × Nat)
+    (hh : hint.1 = s.isSmall) (v : α) :
+    Gen.SmallSet.insert_at_var lt N s hint v = some ((insertR lt N s v).1, (insertR lt N s v).2.1.1, (insertR lt N s v).2.2) := by
+  unfold Gen.SmallSet.insert_at_var
+  rw [isSmall_eq]
+  cases hs : s.isSmall
+  · have hne : s.set ≠ [] := by
+      intro h; simp [SSet.isSmall, h] at hs
+    rw [hs] at hh
+    simp [hh, insertR, SSet.insert, scanCalls, hs, hx hne]
+  · simp [insert_small_eq lt N s v hs]
+
+theorem insert_at_rv_ptr_eq (lt : α → α → Bool) (N : Nat) (s : SSet α) (hx : s.set ≠ [] → s.vec = []) (hint : Bool × Nat)
+    (hh : hint.1 = s.isSmall) (v : α) :
+    Gen.SmallSet.insert_at_rv_ptr lt N s hint v = some ((insertR lt N s v).1, (insertR lt N s v).2.1.1, (insertR lt N s v).2.2) := by
+  unfold Gen.SmallSet.insert_at_rv_ptr
+  rw [isSmall_eq]
+  cases hs : s.isSmall
+  · have hne : s.set ≠ [] := by
+      intro h; simp [SSet.isSmall, h] at hs
+    rw [hs] at hh
+    simp [hh, insertR, SSet.insert, scanCalls, hs, hx hne]
+  · simp [insert_small_rv_eq lt N s v hs]
+
+theorem insert_at_rv_var_eq (lt : α → α → Bool) (N : Nat) (s : SSet α) (hx : s.set ≠ [] → s.vec = []) (hint : Bool × Nat)
+    (hh : hint.1 = s.isSmall) (v : α) :
+    Gen.SmallSet.insert_at_rv_var lt N s hint v = some ((insertR lt N s v).1, (insertR lt N s v).2.1.1, (insertR lt N s v).2.2) := by
+  unfold Gen.SmallSet.insert_at_rv_var
+  rw [isSmall_eq]
+  cases hs : s.isSmall
+  · have hne : s.set ≠ [] := by
+      intro h; simp [SSet.isSmall, h] at hs
+    rw [hs] at hh
+    simp [hh, insertR, SSet.insert, scanCalls, hs, hx hne]
+  · simp [insert_small_rv_eq lt N s v hs]
+
+/-! ### node handles: `extract(key)`, `extract(position)`, `insert(node)`, `insert(hint, node)` -/
+
+/-- the element that `extract(key)` hands out: the element found, in the container in use -/
+def extractNode (lt : α → α → Bool) (s : SSet α) (k : α) : Option α :=
+  if s.isSmall then (match (findSmall lt s.vec k 0).1 with | some i => s.vec[i]? | none => none)
+  else (match (findC lt s.set k).1 with | some i => s.set[i]? | none => none)
+
+theorem extract_eq (lt : α → α → Bool) (N : Nat) (s : SSet α) (hx : s.set ≠ [] → s.vec = []) (k : α) :
+    Gen.SmallSet.extract lt N s k = some ((s.eraseKey lt k).1, extractNode lt s k, scanCalls lt s k) := by
+  unfold Gen.SmallSet.extract SSet.eraseKey extractNode scanCalls
+  rw [isSmall_eq, mfind_small_eq]
+  cases hs : s.isSmall
+  · have hne : s.set ≠ [] := by
+      intro h; simp [SSet.isSmall, h] at hs
+    have hv := hx hne
+    obtain ⟨vec, st⟩ := s
+    simp only at hv hne ⊢
+    subst hv
+    simp only [Bool.false_eq_true, if_false, Sets.eraseKey]
+    cases hf : (findC lt st k).1 with
+    | none =>
+      have : findC lt st k = (none, (findC lt st k).2) := by rw [← hf]
+      rw [this]
+    | some i =>
+      have hlt := Bridge.FlatSet.findC_some_lt lt st k i hf
+      obtain ⟨y, hy⟩ := Bridge.FlatSet.getElem?_of_lt st i hlt
+      have : findC lt st k = (some i, (findC lt st k).2) := by rw [← hf]
+      rw [this]
+      simp [hy]
+  · have hset : s.set = [] := by simpa [SSet.isSmall] using hs
+    simp only [if_true]
+    cases hf : (findSmall lt s.vec k 0).1 with
+    | none => simp
+    | some i =>
+      have hr := findSmall_range lt s.vec k 0 i hf
+      have hne : ¬ (i = s.vec.length) := by omega
+      have hlt : i < s.vec.length := by omega
+      obtain ⟨y, hy⟩ := Bridge.FlatSet.getElem?_of_lt s.vec i hlt
+      simp [hne, hlt, hset]
+
+theorem extract_at_ptr_eq (lt : α → α → Bool) (N : Nat) (s : SSet α) (hx : s.set ≠ [] → s.vec = []) (pos : Bool × Nat)
+    (hp : pos.1 = s.isSmall) (hi : pos.2 < s.elems.length) :
+    Gen.SmallSet.extract_at_ptr lt N s pos = some (s.eraseIdx pos.2, s.elems[pos.2]?, 0) := by
+  obtain ⟨b, i⟩ := pos
+  simp only at hp hi
+  subst hp
+  unfold Gen.SmallSet.extract_at_ptr SSet.eraseIdx
+  simp only [isSmall_eq]
+  unfold SSet.elems at hi ⊢
+  cases hs : s.isSmall
+  · have hne : s.set ≠ [] := by
+      intro h; simp [SSet.isSmall, h] at hs
+    simp only [hs, Bool.false_eq_true, if_false] at hi
+    obtain ⟨y, hy⟩ := Bridge.FlatSet.getElem?_of_lt s.set i hi
+    simp [hy, hx hne]
+  · have hset : s.set = [] := by simpa [SSet.isSmall] using hs
+    simp only [hs, if_true] at hi
+    obtain ⟨y, hy⟩ := Bridge.FlatSet.getElem?_of_lt s.vec i hi
+    simp [hi, hset]
+
+theorem extract_at_var_eq (lt : α → α → Bool) (N : Nat) (s : SSet α) (hx : s.set ≠ [] → s.vec = []) (pos : Bool × Nat)
+    (hp : pos.1 = s.isSmall) (hi : pos.2 < s.elems.length) :
+    Gen.SmallSet.extract_at_var lt N s pos = some (s.eraseIdx pos.2, s.elems[pos.2]?, 0) := by
+  obtain ⟨b, i⟩ := pos
+  simp only at hp hi
+  subst hp
+  unfold Gen.SmallSet.extract_at_var SSet.eraseIdx
+  simp only [isSmall_eq]
+  unfold SSet.elems at hi ⊢
+  cases hs : s.isSmall
+  · have hne : s.set ≠ [] := by
+      intro h; simp [SSet.isSmall, h] at hs
+    simp only [hs, Bool.false_eq_true, if_false] at hi
+    obtain ⟨y, hy⟩ := Bridge.FlatSet.getElem?_of_lt s.set i hi
+    simp [hy, hx hne]
+  · have hset : s.set = [] := by simpa [SSet.isSmall] using hs
+    simp only [hs, if_true] at hi
+    obtain ⟨y, hy⟩ := Bridge.FlatSet.getElem?_of_lt s.vec i hi
+    simp [hi, hset]
+
+/-- the model of `insert(node_type&&)`: `{position, inserted, node}`; an empty node does nothing and gets `end()`; a refused
+    node keeps its value and gets the position of the element that refused it -/
+def insertNodeR (lt : α → α → Bool) (N : Nat) (s : SSet α) (nh : Option α) : SSet α × ((Bool × Nat) × Bool × Option α) × Nat :=
+  match nh with
+  | none => (s, (endIt s, false, none), 0)
+  | some v => ((insertR lt N s v).1,
+               ((insertR lt N s v).2.1.1, (insertR lt N s v).2.1.2, if (insertR lt N s v).2.1.2 then none else some v),
+               (insertR lt N s v).2.2)
+
+theorem insert_node_eq (lt : α → α → Bool) (N : Nat) (s : SSet α) (hx : s.set ≠ [] → s.vec = []) (nh : Option α) :
+    Gen.SmallSet.insert_node lt N s nh = some (insertNodeR lt N s nh) := by
+  unfold Gen.SmallSet.insert_node insertNodeR
+  cases nh with
+  | none =>
+    simp only [isSmall_eq, endIt, SSet.elems]
+    cases s.isSmall <;> simp
+  | some v =>
+    simp only [isSmall_eq, insert_rv_eq lt N s v hx]
+    cases s.isSmall <;> cases (insertR lt N s v).2.1.2 <;> simp
+
+/-- the model of `insert(hint, node_type&&)`: the node left to the caller is emptied iff the size has changed -/
+def insertNodeAtR (lt : α → α → Bool) (N : Nat) (s : SSet α) (nh : Option α) : SSet α × ((Bool × Nat) × Option α) × Nat :=
+  match nh with
+  | none => (s, (endIt s, none), 0)
+  | some v => ((insertR lt N s v).1,
+               ((insertR lt N s v).2.1.1, if (insertR lt N s v).1.size = s.size then some v else none),
+               (insertR lt N s v).2.2)
+
+theorem insert_node_at_ptr_eq (lt : α → α → Bool) (N : Nat) (s : SSet α) (hx : s.set ≠ [] → s.vec = []) (hint : Bool × Nat)
+    (hh : hint.1 = s.isSmall) (nh : Option α) :
+    Gen.SmallSet.insert_node_at_ptr lt N s hint nh = some (insertNodeAtR lt N s nh) := by
+  unfold Gen.SmallSet.insert_node_at_ptr insertNodeAtR
+  cases nh with
+  | none =>
+    simp only [isSmall_eq, endIt, SSet.elems]
+    cases s.isSmall <;> simp
+  | some v =>
+    have := insert_at_rv_ptr_eq lt N s hx hint hh v
+    simp only [Prod.eta] at this ⊢
+    simp only [size_eq, this]
+    by_cases hsz : (insertR lt N s v).1.size = s.size <;> simp [hsz]
+
+theorem insert_node_at_var_eq (lt : α → α → Bool) (N : Nat) (s : SSet α) (hx : s.set ≠ [] → s.vec = []) (hint : Bool × Nat)
+    (hh : hint.1 = s.isSmall) (nh : Option α) :
+    Gen.SmallSet.insert_node_at_var lt N s hint nh = some (insertNodeAtR lt N s nh) := by
+  unfold Gen.SmallSet.insert_node_at_var insertNodeAtR
+  cases nh with
+  | none =>
+    simp only [isSmall_eq, endIt, SSet.elems]
+    cases s.isSmall <;> simp
+  | some v =>
+    have := insert_at_rv_var_eq lt N s hx hint hh v
+    simp only [Prod.eta] at this ⊢
+    simp only [size_eq, this]
+    by_cases hsz : (insertR lt N s v).1.size = s.size <;> simp [hsz]
+
+/-! ### comparison operators
+
+`operator==`: different sizes are unequal; two large sets compare their backing sets (`operator==` of the backing set);
+otherwise at least one iteration sequence is unsorted and `std::is_permutation` is used.  `operator<`: an inline set is
+compared through a sorted vector of pointers to its elements — sorted with a DEFAULT-CONSTRUCTED comparator (`Compare()`), not
+with the comparator object of the set —, with `std::lexicographical_compare` and `<` of the element type. -/
+
+/-- the model of `operator==` -/
+def eqS (eqT : α → α → Bool) (s o : SSet α) : Bool :=
+  if s.size = o.size then
+    (if s.isSmall then Gen.SmallSet.isPermutation eqT s.vec o.elems
+     else if o.isSmall then Gen.SmallSet.isPermutation eqT s.set o.vec
+     else Gen.SmallSet.vecEq eqT s.set o.set)
+  else false
+
+theorem op_eq_eq (lt : α → α → Bool) (N : Nat) (s o : SSet α) (eqT : α → α → Bool) :
+    Gen.SmallSet.op_eq lt N s o eqT = some (eqS eqT s o, 0) := by
+  unfold Gen.SmallSet.op_eq eqS Gen.SmallSet.isSmallOf
+  simp only [size_eq, isSmall_eq]
+  by_cases hsz : s.size = o.size
+  · simp only [hsz, if_true, SSet.elems]
+    cases hs : s.isSmall <;> cases ho : o.isSmall <;> simp [SSet.isSmall] at hs ho ⊢ <;> simp [*]
+  · simp [hsz]
+
+theorem op_ne_eq (lt : α → α → Bool) (N : Nat) (s o : SSet α) (eqT : α → α → Bool) :
+    Gen.SmallSet.op_ne lt N s o eqT = some (!eqS eqT s o, 0) := by
+  unfold Gen.SmallSet.op_ne
+  rw [op_eq_eq]
+  cases eqS eqT s o <;> rfl
+
+/-- the sequence that `operator<` compares: the backing set, or the inline elements sorted by `cmp` -/
+def sortedElems (cmp : α → α → Bool) (s : SSet α) : List α :=
+  if s.isSmall then Gen.SmallSet.sortedBy cmp s.vec else s.set
+
+/-- the model of `operator<` -/
+def ltS (lt_default ltT : α → α → Bool) (s o : SSet α) : Bool :=
+  Gen.SmallSet.vecLess ltT (sortedElems lt_default s) (sortedElems lt_default o)
+
+theorem op_lt_pred_eq (lt lt_default : α → α → Bool) : Gen.SmallSet.op_lt_pred lt lt_default = lt_default := rfl
+
+theorem op_lt_eq (lt : α → α → Bool) (N : Nat) (s o : SSet α) (lt_default ltT : α → α → Bool) :
+    Gen.SmallSet.op_lt lt N s o lt_default ltT = some (ltS lt_default ltT s o, 0) := by
+  unfold Gen.SmallSet.op_lt ltS sortedElems Gen.SmallSet.isSmallOf
+  simp only [isSmall_eq, op_lt_pred_eq]
+  cases hs : s.isSmall <;> cases ho : o.isSmall <;> simp [SSet.isSmall] at hs ho ⊢ <;> simp [*]
+
+theorem op_gt_eq (lt : α → α → Bool) (N : Nat) (s o : SSet α) (lt_default ltT : α → α → Bool) :
+    Gen.SmallSet.op_gt lt N s o lt_default ltT = some (ltS lt_default ltT o s, 0) := by
+  unfold Gen.SmallSet.op_gt
+  rw [op_lt_eq]
+
+theorem op_le_eq (lt : α → α → Bool) (N : Nat) (s o : SSet α) (lt_default ltT : α → α → Bool) :
+    Gen.SmallSet.op_le lt N s o lt_default ltT = some (!ltS lt_default ltT o s, 0) := by
+  unfold Gen.SmallSet.op_le
+  rw [op_lt_eq]
+  cases ltS lt_default ltT o s <;> rfl
+
+theorem op_ge_eq (lt : α → α → Bool) (N : Nat) (s o : SSet α) (lt_default ltT : α → α → Bool) :
+    Gen.SmallSet.op_ge lt N s o lt_default ltT = some (!ltS lt_default ltT s o, 0) := by
+  unfold Gen.SmallSet.op_ge
+  rw [op_lt_eq]
+  cases ltS lt_default ltT s o <;> rfl
+
+theorem vecEq_decide [DecidableEq α] (l o : List α) :
+    Gen.SmallSet.vecEq (fun a b => decide (a = b)) l o = decide (l = o) := by
+  induction l generalizing o with
+  | nil => cases o <;> simp [Gen.SmallSet.vecEq]
+  | cons a t ih =>
+    cases o with
+    | nil => simp [Gen.SmallSet.vecEq]
+    | cons b u =>
+      simp only [Gen.SmallSet.vecEq, ih, List.cons.injEq]
+      by_cases hab : a = b <;> by_cases htu : t = u <;> simp [hab, htu]
+
+theorem vecLess_irrefl (ltT : α → α → Bool) (hirr : ∀ a, ltT a a = false) (l : List α) :
+    Gen.SmallSet.vecLess ltT l l = false := by
+  induction l with
+  | nil => rfl
+  | cons a t ih => simp [Gen.SmallSet.vecLess, hirr, ih]
+
+theorem isPermutation_decide [DecidableEq α] (l o : List α) :
+    Gen.SmallSet.isPermutation (fun a b => decide (a = b)) l o = true ↔ l.Perm o := by
+  have : Gen.SmallSet.isPermutation (fun a b => decide (a = b)) l o = l.isPerm o := rfl
+  rw [this]
+  exact List.isPerm_iff
 
 end AmcVerif.Bridge.SmallSet
